@@ -41,6 +41,18 @@ CHECKS = {
  "C16": dict(level="exploration", tech="deterministic simulation: chunk boundary at every byte of every generated tag; oracle = independent tag parser (R-tag) and a read-after-write model",
    text="Generated start tags with arbitrary attribute syntax in HTML/SVG/MathML/integration-point context and random encodings; every 1-cut of the document is enumerated; every getter is compared with R-tag over the tag's source bytes, lookups are case-varied, and reads after set/remove/rename are compared with a per-token model.",
    ref="DESIGN.md section 5 C16"),
+ "C03": dict(level="exploration", tech="deterministic simulation of delivery schedules and capture sets over generated inputs; oracle = html5ever tokenizer driven by its tree builder (reference implementation comparison)",
+   text="Strict-mode token streams observed through the TransformController seam are compared with html5ever's tokenizer driven by a real tree builder for generated tag soup (HTML namespace) and well-nested foreign-content documents, under sampled chunkings and capture sets (all kinds / each single kind); a successful strict run must equal the non-strict run, and ParsingAmbiguity is accepted only under the stated necessary condition. The input axis is sampled, hence exploration.",
+   ref="DESIGN.md section 5 C03"),
+ "C15": dict(level="exploration", tech="deterministic simulation in supervised child processes with an intent log: fuzzed inputs/settings/selectors/API strings/call histories, pathological sizes, CPU-time proportionality",
+   text="Children built without optimisation (debug assertions, overflow checks) execute seeded fuzz scenarios, selector-string parses, a pathological-size family on an 8 MiB stack and work-proportionality measurements; the parent attributes panics, aborts (stack exhaustion), hangs and super-linear work to the scenario announced in the intent log. Only the documented use-after-error panic is accepted.",
+   ref="DESIGN.md section 5 C15"),
+ "C17": dict(level="exploration", tech="deterministic simulation of C-caller histories through the extern \"C\" entry points in AddressSanitizer/LeakSanitizer child processes; oracle = the mirrored Rust run",
+   text="Mirrored scenarios (handler scripts incl. streaming handlers with drop callbacks, Stop at a handler index, tiny memory limits, bad selectors/encodings, free-without-end, builder freed early, strings freed late) are executed through declarations that mirror lol_html.h and through the Rust API; histories and sink bytes must be equal, failures must surface as return codes plus a last-error string, drop callbacks must run once, and ASan/LSan must stay silent (leaks attributed by a periodic leak probe with re-exploration).",
+   ref="DESIGN.md section 5 C17"),
+ "C18": dict(level="exploration", tech="deterministic simulation with a seeded baton scheduler over real OS threads (one thread runs at a time, hand-over between any two API calls); oracle = solo single-thread histories and a per-thread last-error model",
+   text="N rewriter instances (Send ones migrating at every call, others pinned), C last-error producers/consumers and selector parses are interleaved over 2-8 real threads by a seeded scheduler; every instance's history must equal its solo run, each last-error take must return the calling thread's own pending error, and repetition in the same and in fresh processes must give identical digests.",
+   ref="DESIGN.md section 5 C18"),
  "C01": dict(level="exploration", tech="deterministic simulation: seeded delivery schedules (cut sweeps, empty writes, early close, drop) with conservation oracle",
    text="Seeded exploration of (document, encoding, strict, observer set) x delivery schedules with a byte-conservation oracle checked during and after each run; every 1-cut (and 2-cut for small documents) of each explored document is enumerated, documents and configurations are sampled. Exploration is the honest level: inputs are unbounded, so a clean batch is evidence, not proof.",
    ref="DESIGN.md section 5 C01"),
